@@ -192,9 +192,39 @@ pub fn garbage_specs(th: bool) -> Vec<ExpSpec> {
     v
 }
 
+/// reused, non-blank clusters x short-transferring devices (the zero-fill of a new directory cluster has to cope with
+/// partial transfers), and FAT32 volumes whose root directory does not start in cluster 2
+pub fn ext_specs() -> Vec<ExpSpec> {
+    use harness::builder::{Builder, MkSpec};
+    let mut v = Vec::new();
+    for s in trunc0_reopen_specs(false).into_iter().chain(garbage_specs(false)) {
+        for (tag, sh) in [("-short", Short::Always), ("-blk7", Short::Block(7))] {
+            let mut c = s.cfg.clone();
+            c.name = format!("{}{}", s.cfg.name, tag);
+            c.short = sh;
+            v.push(ExpSpec { cfg: c, prefix: s.prefix.clone(), alphabet: s.alphabet.clone(), depth: 2 });
+        }
+    }
+    for rc in [3u32, 5] {
+        let mut s = MkSpec::new(32);
+        s.root_cluster = rc;
+        let mut b = Builder::new(s);
+        let last = b.geo.max_cluster();
+        let mut keep: Vec<u32> = (2..9).filter(|c| *c != rc).collect();
+        keep.push(last);
+        b.ballast(&keep);
+        b.set_fsinfo(keep.len() as u32, 0xFFFF_FFFF);
+        let mut cands = keep.clone();
+        cands.push(rc);
+        let cfg = vol::cfg_from(&format!("m32-root{rc}"), b.finish(), Some(cands));
+        v.push(ExpSpec::new(cfg, alpha::mixed(512), 3));
+    }
+    v
+}
+
 pub fn specs(tier: &str, _prop: &str) -> Vec<ExpSpec> {
     let th = is_thorough(tier);
-    let mut v = Vec::new();
+    let mut v = ext_specs();
     for ft in [FatType::Fat12, FatType::Fat16, FatType::Fat32] {
         let cfg = vol::tiny_with(ft, 8, 16);
         v.push(ExpSpec::new(cfg.clone(), alpha::mixed(512), if th { 6 } else { 4 }));
@@ -299,6 +329,10 @@ pub fn dot_path_specs(th: bool) -> Vec<ExpSpec> {
                 Op::CreateDir { base: r, path: s("d/e/../g"), keep: None },
                 Op::OpenDir { base: r, path: s("d/e/.."), keep: Some(0) },
                 Op::Rename { base: r, src: s("d/e"), dst_base: r, dst: s("k/z") },
+                // a directory that was moved INTO THE ROOT is used as an ancestor afterwards (its ".." has to say "root",
+                // i.e. 0, on FAT32 too) and is left through its ".."
+                Op::Rename { base: r, src: s("k"), dst_base: r, dst: s("x/k2") },
+                Op::List { base: r, path: s("x/..") },
                 Op::CreateFile { base: DirRef::H(0), path: s("via-handle"), keep: None },
                 Op::List { base: DirRef::H(0), path: s("") },
                 Op::DropDir { d: 0 },
